@@ -176,12 +176,12 @@ func (g *simGetter) Head(ctx context.Context, opts ...header.HeadOption[*vh.Head
 	if p.TrustedHead != nil {
 		// an honest Exchange verifies against the trusted head: hard failures are dropped, soft ones
 		// are handed over together with the header
-		verr := header.Verify(p.TrustedHead, out)
-		var ve *header.VerifyError
-		switch {
-		case verr == nil:
-		case errors.As(verr, &ve) && ve.SoftFailure:
-			return out, verr
+		// (decided by the reference model of Verify, so that a defect inside header.Verify does not change
+		// what this stand-in for the Exchange hands to the Syncer)
+		switch ok, soft := modelVerify(p.TrustedHead, out); {
+		case ok:
+		case soft:
+			return out, &header.VerifyError{Reason: errors.New("simgetter: head does not verify against the trusted head"), SoftFailure: true}
 		default:
 			return nil, header.ErrNotFound
 		}
